@@ -147,8 +147,7 @@ def run(ctx, sess):
                 ok = guard
                 detail = 'payload_prev_length stamped only when appending (fpos >= fend): %s' % guard
             ctx.ob('C14.3', ok, fn.name, 'store to %s' % field, ev.where(), detail)
-    if nfrozen < 40:
-        raise AnalysisBroken('frozen-field stores seen: %d (exporter no longer resolves header members?)' % nfrozen)
+    ctx.floor('frozen-field stores seen', nfrozen, 40)
 
     # ---- C14.4 / C14.7 for header rewrites
     for fn, ev in P.callers().get('jls_raw_wr_header', []):
@@ -235,8 +234,7 @@ def run(ctx, sess):
             val_ok, vdetail = _offset_of_written_chunk(P, fn, ev, rhs)
             ctx.ob('C14.6', guard and val_ok, fn.name, 'store to head_offsets[%s]' % show(idx), ev.where(),
                    'guarded by zero test: %s; value: %s' % (guard, vdetail))
-    if n6 < 2:
-        raise AnalysisBroken('head table stores reachable from writer roots: %d' % n6)
+    ctx.floor('head table stores reachable from writer roots', n6, 2)
 
     # ---- C14.8
     n8 = 0
@@ -247,8 +245,7 @@ def run(ctx, sess):
         ctx.ob('C14.8', w is not None, fn.name, 'link %s' % cp, ev.where(),
                'jls_raw_wr(&%s.hdr) dominates the link' % cp if w else
                'the chunk is linked (its header copied into the list head for later in-place rewrite) before jls_raw_wr stamped payload_prev_length/crc32: the later rewrite changes payload_prev_length on disk')
-    if n8 < 8:
-        raise AnalysisBroken('link call sites: %d' % n8)
+    ctx.floor('link call sites', n8, 8)
 
 
 def _elem_zero_facts(fn, cond, label):
